@@ -284,3 +284,45 @@ def noninterference(ctx, prop, mod):
     ctx.cov['samples'] = [dict(clause=k, pairs=v) for k, v in sorted(by.items())] or ['none']
     if pairs == 0 or len(by) < 3:
         mod.die('paired replay exercised %d clauses only (dead driver)' % len(by))
+
+
+def concurrency(ctx, prop, mod):
+    """C20: independence of disjoint clients as a TLC invariant + concurrent scripts under the race detector"""
+    import glob as g
+    mod.build(ctx, race=True)
+    depth = 4 if ctx.tier == 'quick' else 5
+    mod.tlc_mc(ctx, 'indep', dict(MaxDepth=depth, MaxNow=2), extra=['INVARIANT Independence'])
+    rounds, clients, steps = (12, 6, 25) if ctx.tier == 'quick' else (200, 8, 40)
+    res = os.path.join(ctx.tmp, 'conc.json')
+    logp = os.path.join(ctx.tmp, 'race')
+    env = dict(mod.ENV, GORACE='log_path=%s halt_on_error=0' % logp)
+    mod.run([ctx.bin, 'conc', '-rounds', str(rounds), '-clients', str(clients), '-depth', str(steps), '-seed', str(ctx.seed), '-out', res],
+            3000, env=env, ok=(0, 66))
+    r = json.load(open(res))
+    ctx.cov.update(concurrent_rounds=r['rounds'], clients_per_round=r['clients'], transcript_lines_compared=r['steps'],
+                   race_detector=True, default_components=['defaults.Router', 'defaults.HTTPBodyReader', 'defaults.Responder',
+                                                           'defaults.Redirector', 'defaults.ErrorHandler', 'defaults.Logger',
+                                                           'defaults.SMTPMailer', 'defaults.LogMailer', 'mail goroutines'])
+    ctx.cov['traces_validated_against_impl'] += r['rounds'] * r['clients']
+    ctx.cov['samples'] = ['round of %d clients x %d scripted steps over one instance, each transcript compared with the solo run' % (clients, steps)]
+    reports = []
+    for f in g.glob(logp + '.*'):
+        reports.append(open(f).read())
+    lib = [x for x in reports if '/repo/' in x or (os.environ.get('VERIF_REPO') and os.environ['VERIF_REPO'] in x)]
+    if lib:
+        violation(ctx, prop, 'race:library', dict(report=lib[0][:6000], replay_cmd='abdrive(-race) conc -rounds %d -clients %d -depth %d -seed %d'
+                                                                                   % (rounds, clients, steps, ctx.seed)))
+        return
+    if reports:
+        import sys
+        sys.stderr.write(reports[0][:3000])
+        mod.die('data race in harness code only (machinery problem, not a verdict)')
+    if r['diffs']:
+        # re-run for determinism of the verdict: a transcript difference must show up again
+        mod.run([ctx.bin, 'conc', '-rounds', str(rounds), '-clients', str(clients), '-depth', str(steps), '-seed', str(ctx.seed), '-out', res],
+                3000, env=env, ok=(0, 66))
+        r2 = json.load(open(res))
+        if r2['diffs']:
+            violation(ctx, prop, 'crosstalk:transcript', dict(diff=r['diffs'][0]))
+        else:
+            print('check: transcript difference did not recur; not a verdict', file=__import__('sys').stderr)
